@@ -204,6 +204,6 @@ func VH_C18_two_documents() {
 	vReach("two-built", true)
 	id2, n2 := vhAttr(d2.Root(), "ID")
 	again, _ := vhAttr(d1.Root(), "ID")
-	vAssert("C18,C17.a-later-message-does-not-change-an-earlier-one", vAnd(n1 == 1 && n2 == 1, vAnd(again == id1, vTreeSig(d1.Root()) == sig1)))
+	vAssert("C18,C17,C15.a-later-message-does-not-change-an-earlier-one", vAnd(n1 == 1 && n2 == 1, vAnd(again == id1, vTreeSig(d1.Root()) == sig1)))
 	_ = id2
 }
